@@ -203,14 +203,18 @@ func Equal[T comparable](iters ...Iterator[T]) bool {
 // Last consumes iter and returns the last n items. If iter yields fewer than n items, Last returns
 // all of them.
 func Last[T any](iter Iterator[T], n int) []T {
-	buf := make([]T, n)
+	// A ring of the last n items that grows with the input: n may be far larger than what iter
+	// yields ("all of them"), so it is not allocated up front.
+	buf := make([]T, 0)
 	i := 0
 	for {
 		item, ok := iter.Next()
 		if !ok {
 			break
 		}
-		if n > 0 {
+		if len(buf) < n {
+			buf = append(buf, item)
+		} else if n > 0 {
 			buf[i%n] = item
 		}
 		i++
@@ -220,7 +224,7 @@ func Last[T any](iter Iterator[T], n int) []T {
 		return buf
 	}
 	if i < n {
-		return buf[:i]
+		return buf
 	}
 	out := make([]T, n)
 	idx := i % n
